@@ -172,3 +172,16 @@ def no_shared_mutables(a, b, ignore_types=()):
     walk(a, ma)
     walk(b, mb)
     return not (set(ma) & set(mb))
+
+
+def exc_arg(e, i, type_name=None):
+    """the i-th positional constructor argument of a raised exception: the attribute of that name when the class
+    stores it (WaitingForEvent.add), else e.args[i]"""
+    import inspect
+    try:
+        params = [p for p in inspect.signature(type(e).__init__).parameters if p != "self"]
+        if i < len(params) and hasattr(e, params[i]):
+            return getattr(e, params[i])
+    except (TypeError, ValueError):
+        pass
+    return e.args[i]
